@@ -385,6 +385,129 @@ def g_compute_program(rng, tier):
     return [{"name": "f0", "sub": False, "body": main}] + subs
 
 
+
+def g_ifwhile_program(rng, tier):
+    """`if` / `if-else` trees INSIDE `while` loops, at every nesting depth (if in while, if in if in while, if in the
+    else branch, if in an inner while of an outer while, while inside an if branch, the loop inside a subflow), with
+    conditions on the loop counters so that BOTH values of every condition occur while the loop is running, blocking
+    statements in the branches and AFTER the conditional inside the loop body (a wrong jump out of / to the head of the
+    loop skips them), `break` / `continue` under some of the conditions, and statements after the loop.  Every loop is
+    a counter loop ($i/$j/$k, incremented unconditionally at the top level of its body, first or last), so every
+    slide terminates by construction."""
+    nm = Names()
+    lit = lambda n: {"lit": {"i": n}}  # noqa: E731
+    var = lambda v: {"var": v}  # noqa: E731
+
+    def blocking(allow_user=True):
+        r = rng.random()
+        if r < 0.55:
+            return {"b": nm.bot()}
+        if r < 0.75 and allow_user:
+            return {"u": nm.user()}
+        return {"x": [nm.act(), [], rng.choice([None, "r"])]}
+
+    def cond(c, k):
+        """a condition over the running counter that is true in some iterations and false in others"""
+        r = rng.random()
+        a = rng.randrange(0, k)
+        if r < 0.35:
+            return {"bin": ["eq", var(c), lit(a)]}
+        if r < 0.5:
+            return {"bin": ["ne", var(c), lit(a)]}
+        if r < 0.7:
+            return {"bin": [rng.choice(["lt", "ge"]), var(c), lit(rng.randrange(1, k) if k > 1 else 1)]}
+        if r < 0.8:
+            return {"bin": ["eq", {"bin": ["add", var(c), var(rng.choice(VARS))]}, lit(rng.randrange(0, k + 1))]}
+        if r < 0.9:
+            return {"bin": [rng.choice(["and", "or"]), {"bin": ["ge", var(c), lit(a)]}, {"bin": ["lt", var(rng.choice(VARS)), lit(rng.choice([1, 2]))]}]}
+        return {"not": {"bin": ["eq", var(c), lit(a)]}}
+
+    def branch(c, k, idepth, cvars, can_continue, wdepth):
+        out = []
+        for _ in range(rng.choice([1, 1, 2])):
+            r = rng.random()
+            if idepth > 0 and r < 0.3:
+                out.append(iftree(c, k, idepth - 1, cvars, can_continue, wdepth))
+            elif r < 0.65:
+                out.append(blocking())
+            elif r < 0.85:
+                v = rng.choice(VARS)
+                out.append({"set": [v, {"bin": ["add", var(v), lit(1)]}]})
+            elif wdepth > 0 and len(cvars) > 1 and r < 0.93:
+                out.extend(loop(cvars[1:], wdepth - 1, rng.choice([0, 1])))   # a while inside an if branch
+            else:
+                out.append(blocking(False))
+        if rng.random() < 0.15:
+            out.append({"break": 1} if (rng.random() < 0.5 or not can_continue) else {"continue": 1})
+        return out
+
+    def iftree(c, k, idepth, cvars, can_continue, wdepth):
+        els = branch(c, k, idepth, cvars, can_continue, wdepth) if rng.random() < 0.55 else []
+        return {"if": [cond(c, k), branch(c, k, idepth, cvars, can_continue, wdepth), els]}
+
+    def loop(cvars, wdepth, idepth):
+        c = cvars[0]
+        k = rng.choice([2, 3, 3, 4])
+        inc = {"set": [c, {"bin": ["add", var(c), lit(1)]}]}
+        inc_first = rng.random() < 0.4
+        body = []
+        for _ in range(rng.choice([1, 1, 2])):
+            if rng.random() < 0.25:
+                body.append(blocking() if rng.random() < 0.6 else {"set": ["t", {"bin": ["add", var("t"), var(c)]}]})
+            body.append(iftree(c, k + (1 if inc_first else 0), idepth, cvars, inc_first, wdepth))
+        if wdepth > 0 and len(cvars) > 1 and rng.random() < 0.45:
+            body.extend(loop(cvars[1:], wdepth - 1, rng.choice([0, 1, 2])))
+        # what follows the conditional inside the body: skipped by a jump out of the loop or back to its head
+        r = rng.random()
+        if r < 0.45:
+            body.append(blocking())
+        elif r < 0.7:
+            body.append({"set": ["t", {"bin": ["add", var("t"), lit(1)]}]})
+        body = [inc] + body if inc_first else body + [inc]
+        return [{"set": [c, lit(0)]}, {"while": [{"bin": ["lt", var(c), lit(k)]}, body]}]
+
+    init = [{"set": [a, lit(rng.choice([0, 0, 1]))]} for a in ["t"] + VARS]
+    if rng.random() < 0.5:
+        init.append({"set": ["r", {"lit": rng.choice([False, True, {"i": 0}])}]})
+    subs = []
+    main = [{"u": nm.user()}] + init
+    if rng.random() < 0.3:
+        main.append({"b": nm.bot()})
+    shape = rng.random()
+    if shape < 0.2:
+        subs.append({"name": "s0", "sub": True, "body": loop(["j", "k"], 1, rng.choice([1, 2])) + ([blocking()] if rng.random() < 0.5 else [])})
+        main.append({"do": "s0"})
+    elif shape < 0.35:
+        # the loop (with its conditionals) inside an if branch of the flow
+        main.append({"if": [{"bin": ["lt", var("x"), lit(2)]}, loop(["i", "j", "k"], 1, rng.choice([1, 2])), [blocking(False)] if rng.random() < 0.5 else []]})
+    else:
+        main += loop(["i", "j", "k"], rng.choice([0, 1, 1, 2]), rng.choice([0, 1, 1, 2, 3]))
+    main.append({"b": nm.bot()})           # the statement after the loop
+    if rng.random() < 0.4:
+        main += loop(["i", "j"], 0, 1)      # the same counter again: the second reach of a loop head
+        main.append({"b": nm.bot()})
+    return [{"name": "f0", "sub": False, "body": main}] + subs
+
+
+def if_in_while_profile(flows):
+    """{(while depth, if depth)} of every `if` that sits inside a loop (AST level), for the distribution counters"""
+    out = set()
+
+    def walk(ss, wd, idp):
+        for s in ss:
+            if "if" in s:
+                if wd > 0:
+                    out.add((wd, idp + 1))
+                walk(s["if"][1], wd, idp + 1)
+                walk(s["if"][2], wd, idp + 1)
+            elif "while" in s:
+                walk(s["while"][1], wd + 1, 0)
+
+    for f in flows:
+        walk(f["body"], 0, 0)
+    return out
+
+
 # ----------------------------------------------------------------------------- rendering to Colang 1.0
 
 _OPS = {"eq": "==", "ne": "!=", "lt": "<", "le": "<=", "gt": ">", "ge": ">=", "add": "+", "sub": "-", "and": "and", "or": "or"}
@@ -1025,6 +1148,13 @@ def gen_cases(rng, tier):
         flows = g_compute_program(sub2, tier)
         for mode in ("follow", "follow", "leave"):
             cases.append({"kind": "fn" if sub2.random() < 0.9 else "rt", "flows": flows, "history": g_history(sub2, flows, mode), "seed": sub2.randrange(1 << 30)})
+    # conditionals inside loops, every nesting depth, both condition values while the loop runs
+    sub5 = random.Random(rng.randrange(1 << 30))
+    for _ in range(45 if tier == "quick" else 900):
+        flows = g_ifwhile_program(sub5, tier)
+        for mode in ("follow", "follow", "leave"):
+            cases.append({"kind": "fn" if sub5.random() < 0.88 else "rt", "flows": flows, "history": g_history(sub5, flows, mode), "seed": sub5.randrange(1 << 30)})
+        cases.append({"kind": "fn", "flows": flows, "history": g_reentry_history(sub5, flows), "seed": sub5.randrange(1 << 30)})
     return cases
 
 
@@ -1672,6 +1802,12 @@ def run_impl_fn(case):
         mc, why = model_cfgs(used_cfgs)
         obs["mcfgs"] = mc
         obs["unsupported"] = why
+        try:
+            # the loop keys of EVERY element dict (`if`, `set`, `jump`, steps … included), before any use
+            obs["akeys"] = {fid: [tr.loop_keys(e) for e in fc.elements] for fid, fc in used_cfgs.items()}
+        except tr.Unsupported as e:
+            obs["akeys"] = None
+            obs["unsupported"] = obs["unsupported"] or str(e)
         history = case["history"]
         if case["kind"] == "rt":
             try:
@@ -1751,6 +1887,41 @@ def run_impl_fn(case):
                 except Exception as e:  # noqa
                     res = {"res": "err"} if str(e).startswith("Error evaluating") else {"res": "exc:" + type(e).__name__}
                 slides.append({"flow": fid, "head": head, "ctx0": sorted([k, tr.val_to_model(v)] for k, v in ctxs[(head + len(slides)) % 3].items()), "out": res})
+        # (3a) every `if` element that sits inside a loop (it carries `_next_on_break`), with BOTH values of its
+        # condition: contexts found by evaluating the model expression with the reference evaluator
+        idx0 = {c["id"]: c["elems"] for c in (mc or [])}
+        cand_ctxs = [{"x": a, "y": b, "z": c, "r": r, "i": i, "j": j, "k": 0, "t": i + j}
+                     for (a, b, c, r, i, j) in [(0, 0, 0, False, 0, 0), (1, 2, 0, True, 1, 0), (2, 1, 1, 0, 2, 1), (3, 0, 2, None, 3, 2), (0, 3, 1, True, 4, 3),
+                                                (1, 1, 3, False, 0, 1), (2, 2, 2, 1, 1, 2), (0, 1, 0, True, 2, 0), (3, 3, 3, False, 3, 3), (1, 0, 1, True, 0, 2)]]
+        if_cov = []
+        for fid, fc in fresh_cfgs.items():
+            for head, el in enumerate(fc.elements):
+                if el.get("_type") != "if" or "_next_on_break" not in el or fid not in idx0 or len(if_cov) >= 24:
+                    continue
+                want = {True: None, False: None}
+                for cx in cand_ctxs:
+                    try:
+                        v = bool(ref_eval(idx0[fid][head]["c"], cx))
+                    except Exception:  # noqa  (_EvalError, or an expression form outside the reference evaluator)
+                        continue
+                    if want[v] is None:
+                        want[v] = cx
+                for v, cx in want.items():
+                    if cx is None:
+                        continue
+                    st = _M.fl.State(context=dict(cx), flow_states=[], flow_configs=fresh_cfgs)
+                    try:
+                        h = guarded(_M.sliding.slide, st, fc, head)
+                        res = {"res": "at" if h is not None and h >= 0 else "fin", "head": h, "ctx": sorted([k, tr.val_to_model(v2)] for k, v2 in st.context.items()), "upd": sorted([k, tr.val_to_model(v2)] for k, v2 in st.context_updates.items())}
+                    except _Hang:
+                        res = {"res": "hang"}
+                    except tr.Unsupported:
+                        res = {"res": "unsupported"}
+                    except Exception as e:  # noqa
+                        res = {"res": "err"} if str(e).startswith("Error evaluating") else {"res": "exc:" + type(e).__name__}
+                    slides.append({"flow": fid, "head": head, "ctx0": sorted([k, tr.val_to_model(v2)] for k, v2 in cx.items()), "out": res, "if_in_loop": v})
+                    if_cov.append(v)
+        obs["if_in_loop"] = [sum(1 for v in if_cov if v), sum(1 for v in if_cov if not v)]
         obs["slides"] = slides
         # (3b) slide WITH its side effect: `_label` keys injected into a copy of the parsed elements (and left-over
         # `_active_label`s of "earlier slides"); which dicts get `_active_label` written, and the outcome, must be
@@ -1803,7 +1974,10 @@ def model_requests(case, obs):
         reqs.append({"m": "C14.compile", "prog": prog_for_model(f["body"])})
     idx = {c["id"]: c["elems"] for c in obs["mcfgs"]}
     for s in obs["slides"]:
-        reqs.append({"m": "C14.slide", "elems": idx[s["flow"]], "ctx": s["ctx0"], "head": s["head"]})
+        r = {"m": "C14.slide", "elems": idx[s["flow"]], "ctx": s["ctx0"], "head": s["head"]}
+        if obs.get("akeys"):
+            r["keys"] = obs["akeys"][s["flow"]]   # -> V1Annot.slideA on the dicts with their loop keys
+        reqs.append(r)
     # the action loop: one request per turn driven through RuntimeV1_0.generate_events (kind rt)
     for g in obs.get("gen", []):
         reqs.append({"m": "C14.gen", "flows": obs["mcfgs"], "events": g["events"], "results": obs["gen_script"]})
@@ -1844,15 +2018,24 @@ def compare(case, obs, mouts):
             return f"compile(AST) differs from the parser's elements in flow {f['name']} at {i}: model {c['compile'][i:i+1]} parser {mc['elems'][i:i+1]}"
         if c["comp"] != c["compile"]:
             return f"comp none differs from compile in flow {f['name']}"
+        if c.get("compileA") is not None and c["compileA"] != c["compile"]:
+            return f"compileA (annotated compiler) does not project onto compile in flow {f['name']}"
+        ak = (obs.get("akeys") or {}).get(f["name"])
+        if ak is not None and c.get("keys") is not None and c["keys"] != ak:
+            i = next((i for i, (a, b) in enumerate(zip(c["keys"], ak)) if a != b), min(len(c["keys"]), len(ak)))
+            return (f"annotation pass: `_next_on_break` / `_next_on_continue` of element {i} of flow {f['name']}: "
+                    f"model compileA {c['keys'][i:i+1]} parser {ak[i:i+1]}")
     # slide tie
     for s, m in zip(obs["slides"], slides):
         o = s["out"]
         if o["res"] == "unsupported":
             continue
+        if m.get("same_as_plain") is False:
+            return f"slide({s['flow']}, head={s['head']}): the model's slide on the dicts WITH their loop keys (slideA) differs from slide without them: {m}"
         if o["res"] == "hang" and m["res"] == "oof":
             continue   # the real loop spins, the model's fuel runs out: both do not terminate from here
         if o["res"] != m["res"]:
-            return f"slide({s['flow']}, head={s['head']}): impl {o} model {m}"
+            return f"slide({s['flow']}, head={s['head']}): impl {o} model {m}" + (f" [`if` inside a loop, condition {s['if_in_loop']}]" if "if_in_loop" in s else "")
         if o["res"] in ("at", "fin"):
             if o["head"] != m["head"] or o["ctx"] != _norm_ctx(m["ctx"]) or o["upd"] != _norm_ctx(m["upd"]):
                 return f"slide({s['flow']}, head={s['head']}): impl {o} model {m}"
@@ -2169,6 +2352,13 @@ def tags(case, obs):
         t.append("exc:" + next(d["exc"] for d in obs["used"] if "exc" in d))
     if obs.get("hangs"):
         t.append("hang-observed")
+    for wd, idp in sorted(if_in_while_profile(case["flows"])):
+        t.append("if-in-while:w%d-i%d" % (min(wd, 3), min(idp, 4)))
+    if obs.get("if_in_loop"):
+        if obs["if_in_loop"][0]:
+            t.append("slide@if-in-loop:cond-true")
+        if obs["if_in_loop"][1]:
+            t.append("slide@if-in-loop:cond-false")
     if any(ev["e"] == "hide" for ev in obs["history"]):
         t.append("hide")
     if obs.get("gen"):
